@@ -176,6 +176,9 @@ var templates = []string{
 	"nerr().Error()", "x = nerr()\nx.Error()", "x = nstr()\nx.String()", "x = nerr()\nx.Error = %s", "x, y = nerr2(%s)\ny.Error()", "x = nerr()\n%s(x)", "x = nerr()\nx.%s", "x = nerr()\n[x == nil, x == %s, len(x), x[0], *x, &x, -x, !x, x + 1]", "x = nerr()\nfor y in x { }", "x = nerr()\nx()", "x = nstr()\nthrow x", "x = nerr()\nswitch x { case nil: 1 }", "x = nerr()\n{x: 1}\nm[x] = 1", "l[0] = nerr()\nl[0].Error()", "x = verr()\nx.Error()\nx.zz\nx.Error = 1",
 	"go func() { for ck = 0; ck < 3000; ck++ { make(int64); new(string) } }()\ngo func() { for ck = 0; ck < 3000; ck++ { x = []int64{ck} } }()\nfor cj = 0; cj < 3000; cj++ { make(type TQ, cj) }",
 	"func rd() { for ck = 0; ck < 3000; ck++ { make([]string, 1) } }\ngo rd()\ngo rd()\nfor cj = 0; cj < 3000; cj++ { make(type TQ, %s) }", "module tm { func rd() { for ck = 0; ck < 3000; ck++ { make(int64) } } }\ngo tm.rd()\nfor cj = 0; cj < 3000; cj++ { make(type TQ, cj)\n make(type TR, \"s\") }",
+	// script goroutines that share nothing but the interpreter: each keeps defining functions of many parameters
+	"go func() { for ci = 0; ci < 200; ci++ { fa = func(%p) { return 1 } } }()\ngo func() { for ck = 0; ck < 200; ck++ { fb = func(%p) { return 2 } } }()\nfor cj = 0; cj < 200; cj++ { fc = func(%p) { return 3 } }",
+	"func mk1() { return func(%p) { return 1 } }\nfunc mk2() { return func(%p) { return 2 } }\ngo mk1()\ngo mk2()\ngo mk1()\nmk2()",
 	"try { %s(%s) } catch e { e.Error() }", "try { throw %s } catch e { e = %s }", "module m2 { a = %s }; m2.a(%s)", "x = %s; x.y = %s", "x = %s; x[0] = %s; x",
 }
 
@@ -185,6 +188,21 @@ func (c *Case) fill(t *rapid.T, tmpl string) string {
 		if tmpl[i] == '%' && i+1 < len(tmpl) {
 			if tmpl[i+1] == 's' {
 				b.WriteString(genOperand(t, 1))
+				i++
+				continue
+			}
+			if tmpl[i+1] == 'p' {
+				// a parameter list of 5..20 names (half of the time with a variadic tail)
+				n := 5 + int(rapid.Uint64().Draw(t, "nparams")%16)
+				var ps []string
+				for k := 0; k < n; k++ {
+					ps = append(ps, fmt.Sprintf("q%d", k))
+				}
+				list := strings.Join(ps, ", ")
+				if rapid.Bool().Draw(t, "variadic") {
+					list += "..."
+				}
+				b.WriteString(list)
 				i++
 				continue
 			}
